@@ -140,7 +140,9 @@ fn run_deep(ctx: &Ctx, cfg: &Cfg, bound: usize, grid1: usize, grid2: usize, obs:
                         return false;
                     }
                 }
-                obs(ctx, p, &|| json!({"kind":"theta_run","cfg":cfg.json(),"run":rname,"pos":pos,"deviations":trace.iter().map(|(p,o)| json!([p,o.json()])).collect::<Vec<_>>()}));
+                if trace.is_empty() || trace.last().map(|t| t.0) == Some(pos) {
+                    obs(ctx, p, &|| thetam::replay_json(cfg, &executed_ops(&run, trace, pos, op)));
+                }
                 true
             },
         );
@@ -212,7 +214,6 @@ fn run_small(ctx: &Ctx, cfg: &Cfg, depth: usize, obs: &Observer, edges: &Mutex<B
                         return Step::Stop;
                     }
                 }
-                obs(ctx, &n, &|| thetam::replay_json(cfg, &ops()));
                 Step::Next(n)
             },
             |p: &Pair| p.key(),
@@ -223,6 +224,9 @@ fn run_small(ctx: &Ctx, cfg: &Cfg, depth: usize, obs: &Observer, edges: &Mutex<B
                     "two paths to the same (retained set, theta, table size) disagree on estimate/count/emptiness",
                     json!({"kind":"theta_two_paths","cfg":cfg.json(),"prefix_len":prefix.len(),"path_a":p0,"path_b":p1}),
                 );
+            },
+            |p: &Pair, path: &[u16]| {
+                obs(ctx, p, &|| thetam::replay_json(cfg, &prefix.iter().cloned().chain(path.iter().map(|&i| alphabet[i as usize].clone())).collect::<Vec<Op>>()));
             },
         );
         ctx.add_states(stats.states);
@@ -242,6 +246,17 @@ pub fn explore(ctx: &Ctx, obs: &Observer) {
     }
     let edges = Mutex::new(BTreeMap::new());
     ctx.count("configurations (lg_k x resize factor x p x seed)", cfgs.len() as u64);
+    if ctx.reduced {
+        cfgs.retain(|c| c.seed == 9001 && (c.rf == 3 || c.rf == 0 || c.lg_k == 5));
+        cfgs.par_iter().for_each(|cfg| {
+            run_deep(ctx, cfg, 1, ctx.tier.pick(4, 16), 1, obs, &edges);
+            if cfg.lg_k <= 6 {
+                run_small(ctx, cfg, ctx.tier.pick(3, 4), obs, &edges);
+            }
+        });
+        ctx.edges_merge(&edges.lock().unwrap());
+        return;
+    }
     cfgs.par_iter().for_each(|cfg| {
         let k = 1usize << cfg.lg_k;
         let t0 = std::time::Instant::now();
